@@ -23,6 +23,7 @@ fn read_variant(bytes: &[u8], variant: usize) -> rt::Out<peppi::game::immutable:
 
 pub fn roundtrip(m: &ModelGame) -> Result<(), Fail> {
 	let bytes = m.encode();
+	super::sibling_history(m, &bytes);
 	let variant = bytes.len() + m.frames.len();
 	let g = read_variant(&bytes, variant).expect_ok("slippi::read").map_err(|f| {
 		let mut f = f.with_file("slp", &bytes);
